@@ -67,6 +67,8 @@ class Replayer(object):
         for rid, kind in kinds.items():
             ms = methods_of(rid)
             rmws = [self.MwRoute()] if kind in ('needs', 'bindv') else []
+            if kind == 'bindv':
+                rmws = (m for m in rmws)       # any iterable will do for a Route's middlewares - also a one-shot iterator
             self.routes[rid] = Route(KIND_PAT[kind], make_endpoint(rid, kind), methods=list(ms) if ms else None,
                                      middlewares=rmws)
         self.snap = dict((rid, self.snapshot(r)) for rid, r in self.routes.items())
@@ -108,7 +110,10 @@ class Replayer(object):
                 it = op['items'][0]
                 entry = self.item_to_entry(it, self.fresh)
                 self.fresh += 1
-                self.apps[op['a']].add(entry, index=op['idx'])
+                idx = op['idx']
+                if idx == len(self.apps[op['a']].routes) and self.fresh % 2:
+                    idx += 3          # "at the end": any index at or beyond the end means append (list.insert semantics)
+                self.apps[op['a']].add(entry, index=idx)
             return 'ok', None
         except Exception as e:  # noqa
             return type(e).__name__, e
